@@ -163,8 +163,10 @@ func runBatch(r *vf.Run, b batch) {
 	if poolPath != "" {
 		args = append(args, poolPath)
 	}
-	ex := r.RunChild(vf.ChildSpec{Stage: b.stage, Args: args, Race: b.race, Timeout: to, Attribution: attribution})
+	// attribution is done in accountRaces (one stable key for the many faces of one defect)
+	ex := r.RunChild(vf.ChildSpec{Stage: b.stage, Args: args, Race: b.race, Timeout: to})
 	r.Count("children", 1)
+	accountRaces(r, ex.Races)
 	if ex.ExitCode == 66 && ex.Partial && len(ex.Races) > 0 {
 		ex.ExitCode = 0 // race runtime: "races were reported"; the body completed
 	}
@@ -185,6 +187,51 @@ func runBatch(r *vf.Run, b batch) {
 		r.Violate("crash:"+b.stage+":"+sig+"@"+site,
 			fmt.Sprintf("child %s died (exit=%d signal=%q) while running %s", label, ex.ExitCode, ex.Signal, strings.TrimSpace(string(jr))),
 			map[string]any{"stage": b.stage, "race": b.race, "journal": strings.TrimSpace(string(jr)), "output": tail})
+	}
+}
+
+// accountRaces: a report counts iff a stargz-snapshotter frame of either access stack
+// matches the attribution set. Reports with one side inside the body closure of
+// layer.backgroundFetch (backgroundFetch.func1.1) are all the same defect seen through
+// different innermost frames (bytesWriter.Write, cache.reader.ReadAt, the gzip/zstd
+// readers, the result variables): a background-task body that is still running after
+// InvokeBackgroundTask retried it or returned (task.InvokeBackgroundTask does not wait for
+// the body it cancelled). They get ONE stable key so that the defect can be listed once.
+func accountRaces(r *vf.Run, reps []vf.RaceReport) {
+	const mod = "github.com/containerd/stargz-snapshotter/"
+	for _, rep := range reps {
+		hit, inBody := false, false
+		for _, st := range rep.Access {
+			for _, fn := range st {
+				if !strings.HasPrefix(fn, mod) {
+					continue
+				}
+				short := strings.TrimPrefix(fn, mod)
+				if strings.Contains(short, "fs/layer.(*layer).backgroundFetch.func1.1") {
+					inBody = true
+				}
+				for _, a := range attribution {
+					if strings.Contains(short, a) {
+						hit = true
+					}
+				}
+			}
+		}
+		a, b := rep.InnermostRepoFrames()
+		fr := []string{a, b}
+		sort.Strings(fr)
+		switch {
+		case inBody:
+			r.Violate("race:background-task-body-overlaps-or-outlives-its-invocation@layer.backgroundFetch",
+				"data race: a body of layer.backgroundFetch's background task runs concurrently with another body of the same invocation or with the code that consumes its buffer/result after InvokeBackgroundTask returned (prioritized task arrived during background fetch); innermost frames "+fr[0]+" | "+fr[1],
+				map[string]any{"report": rep.Text})
+			r.Distinct("attributed_races", "race:"+fr[0]+"|"+fr[1])
+			r.Count("race_reports_background_body", 1)
+		case hit:
+			key := "race:" + fr[0] + "|" + fr[1]
+			r.Violate(key, "data race between "+fr[0]+" and "+fr[1], map[string]any{"report": rep.Text})
+			r.Distinct("attributed_races", key)
+		}
 	}
 }
 
@@ -1009,5 +1056,4 @@ func (c *kase) bgPhase() {
 	c.step("OfflineReadAll(%d files, %d bytes) bad=%d", len(c.ls.Files), bytes, bad)
 }
 
-var _ = sort.Strings
 
